@@ -97,4 +97,5 @@ MUTANTS += [
     ("c05-suffixed-definition-any-width", "C05", "jasm_regex/tree_generators/pattern_node_type_builder/special_register_capture_group_type_builder.py",
      'return self._reference(call.process_register_capture_group_name_genreg(lowered, "([abcd])"), any_width=False)',
      'return self._reference(call.process_register_capture_group_name_genreg(lowered, "([abcd])"), any_width=True)'),
+    ("c14-matching-options-not-restored", "C14", MA, "        for key, value in self._matching_options.items():\n            self.global_config._set_info(key, value)\n", ""),
 ]
